@@ -45,6 +45,7 @@ fn lines() {
         let res = match toks[0] {
             "gen" => gen::run(&mut ctx, &toks[1..]),
             "cba" => client::run(&mut ctx, &toks[1..]),
+            "cbp" => client::run_cbp(&mut ctx, &toks[1..]),
             "ord" => client::run_ord(&toks[1..]),
             "ordv" => client::run_ordv(&toks[1..]),
             "bnd" => bound::run_bnd(&toks[1..]),
@@ -64,6 +65,15 @@ fn lines() {
             "updt" => updater::run_timed(&toks[1..]),
             "upd2" => updater::run_two(&toks[1..]),
             "shm" => engine::run(&toks[1..]),
+            "shmd" => {
+                engine::FAMILY.store(1, std::sync::atomic::Ordering::SeqCst);
+                let r = std::panic::catch_unwind(|| engine::run(&toks[1..]));
+                engine::FAMILY.store(0, std::sync::atomic::Ordering::SeqCst);
+                match r {
+                    Ok(s) => s,
+                    Err(e) => std::panic::resume_unwind(e),
+                }
+            }
             "stall" => engine::run_stall(&toks[1..]),
             "seg" => segfile::run_seg(&toks[1..]),
             "pol" => poller::run(&toks[1..]),
